@@ -633,6 +633,9 @@ type c04Wire struct {
 	RURel               bool
 	Framing             string // see c04SigReq.Fr
 	Shape               string // header shape, see c04Shapes
+	Abort               bool   // the body reader fails after AbortAt bytes
+	AbortAt             int
+	AbortErr            string
 }
 
 const c04GarbageHeader = "fingerprint=fp-a; secret=QUJDRA==; signature=QUJDRA=="
@@ -761,7 +764,7 @@ func c04Verified(method string) bool {
 }
 
 var c04Tampers = []string{"time", "method", "path", "query", "body", "sig", "sig-empty", "fp-unknown", "fp-other",
-	"key", "secret-garbage", "secret-foreignkey", "noheader", "time-text", "query-drop", "body-drop"}
+	"key", "secret-garbage", "secret-foreignkey", "noheader", "time-text", "query-drop", "body-drop", "body-suffix"}
 
 // c04Tamper applies exactly one alteration to a correctly signed request.
 // It returns false when the alteration would be the identity.
@@ -829,6 +832,16 @@ func c04Tamper(w c04Wire, r c04SigReq, ts int64, kind string, arg int) (c04Wire,
 			}
 			w.Body = b
 		}
+	case "body-suffix":
+		// only the tail of the signed body is sent
+		if len(w.Body) < 2 {
+			return w, false
+		}
+		k := arg % len(w.Body)
+		if k == 0 {
+			k = 1
+		}
+		w.Body = append([]byte(nil), w.Body[k:]...)
 	case "body-drop":
 		if len(w.Body) == 0 {
 			return w, false
